@@ -1,4 +1,5 @@
 import UrcuVerif.Src.ReadRefine
+import UrcuVerif.Src.ReadQsbrRefine
 /-!
 # Source refinement, read side (memb / mb / bp): final statements
 
@@ -9,6 +10,9 @@ regenerated from the C text of /repo on every run) refines, thread-locally, the 
   `Src.Read.lstep` and the event abstraction `Src.Read.absEv` / `absRun`;
 * `Handshake/Tso.lean` (futex handshake; waker labels `k0 kf k1 k2Wake k2Skip k3`) through `hstep`, `absEvH` / `absRunH`,
   for the outermost `rcu_read_unlock` of memb and mb.
+
+QSBR (`_urcu_qsbr_*`, last section): same pattern against `Gp/Qsbr.lean` (`qstep`, `absEvQ` / `absRunQ`) and
+`Handshake/QsbrTso.lean` (`kstep`, `absEvK` / `absRunK`); definitions and side conditions in `Src/ReadQsbrRefine.lean`.
 
 Everything about the definitions, the abstracted-away events and the side conditions is in the header of
 `Src/ReadRefine.lean`; the local automata and their relation to the real `Gp.step` / `Handshake.step` (projection,
@@ -22,7 +26,7 @@ completed call (`ctl = normal`) ends at the pc / nesting level after the call.
 -/
 set_option maxRecDepth 8192
 namespace UrcuVerif.Props.SrcRead
-open UrcuVerif UrcuVerif.Src UrcuVerif.Src.Read
+open UrcuVerif UrcuVerif.Src UrcuVerif.Src.Read UrcuVerif.Src.ReadQsbr
 
 /-! ## memb -/
 
@@ -310,5 +314,147 @@ example : ∃ s1 s2, Gp.step ⟨1, false, true⟩ Gp.init (.reg 0) = some s1 ∧
     lstep true (proj s1 0) (.rLd false) = some (proj s2 0) := by
   refine ⟨_, _, rfl, rfl, ?_⟩
   exact flip_proj_step ⟨1, false, true⟩ _ _ 0 (.rLd false) rfl rfl
+
+/-! ## QSBR -/
+
+theorem _urcu_qsbr_quiescent_state_refines (fuel : Nat) (env : Env) (inp : List Val) (ls : QState)
+    (hrel : RelQ env ls) (hout : ls.rpc = .out) (hreg : ls.reg = true)
+    (hgp : ∀ v, inp.head? = some v → QShape v) (hint : ∀ v, v ∈ inp → ∃ n : Int, v = .int n) :
+    ∃ out, exec fuel Gen.Src.«_urcu_qsbr_quiescent_state» env inp = .ok out ∧
+      (∃ labs ls', absRunQ ls out.events = some (labs, ls') ∧ qrun ls labs = some ls' ∧ RelQ out.env ls' ∧
+        (∀ l, l ≠ qRdCtr → l ≠ qWaiting → l ≠ qFutex → out.env.priv l = env.priv l) ∧
+        (Done out.ctl ∨ out.ctl = .blocked) ∧
+        (Done out.ctl → ls'.rpc = .out ∧ ls'.reg = ls.reg ∧
+          (∀ e ∈ out.events, ∀ l n mo, e = .st l (.int n) mo → l = qRdCtr → ls'.lctr = decq n) ∧
+          ((∀ e ∈ out.events, ∀ l v mo, e ≠ .st l v mo) → ls'.lctr = ls.lctr))) ∧
+      ((∀ g, inp.head? = some (.int (encq g)) → g ≠ ls.lctr) →
+        ∀ r0, ∃ klabs ks', absRunK { kpc := .k0, r := r0 } out.events = some (klabs, ks') ∧
+          krun { kpc := .k0, r := r0 } klabs = some ks' ∧ (Done out.ctl → ks'.kpc = .k9)) := by
+  obtain ⟨out, h, ⟨labs, ls', h1, h2⟩, hk⟩ := qsbr_quiescent_state fuel env inp ls hrel hout hreg hgp hint
+  refine ⟨out, h, ⟨labs, ls', h1, absRunQ_qrun _ _ _ _ h1, h2⟩, ?_⟩
+  intro hne r0
+  obtain ⟨kl, ks', h3, h4⟩ := hk hne r0
+  exact ⟨kl, ks', h3, absRunK_krun _ _ _ _ h3, h4⟩
+
+theorem _urcu_qsbr_thread_offline_refines (fuel : Nat) (env : Env) (inp : List Val) (ls : QState)
+    (hrel : RelQ env ls) (hout : ls.rpc = .out) (hreg : ls.reg = true)
+    (hint : ∀ v, v ∈ inp → ∃ n : Int, v = .int n) :
+    ∃ out, exec fuel Gen.Src.«_urcu_qsbr_thread_offline» env inp = .ok out ∧
+      (∃ labs ls', absRunQ ls out.events = some (labs, ls') ∧ qrun ls labs = some ls' ∧ RelQ out.env ls' ∧
+        (∀ l, l ≠ qRdCtr → l ≠ qWaiting → l ≠ qFutex → out.env.priv l = env.priv l) ∧
+        (Done out.ctl ∨ out.ctl = .blocked) ∧
+        (Done out.ctl → ls'.rpc = .out ∧ ls'.reg = ls.reg ∧
+          (∀ e ∈ out.events, ∀ l n mo, e = .st l (.int n) mo → l = qRdCtr → ls'.lctr = decq n) ∧
+          ((∀ e ∈ out.events, ∀ l v mo, e ≠ .st l v mo) → ls'.lctr = ls.lctr))) ∧
+      (∀ r0, ∃ klabs ks', absRunK { kpc := .k0, r := r0 } out.events = some (klabs, ks') ∧
+          krun { kpc := .k0, r := r0 } klabs = some ks' ∧ (Done out.ctl → ks'.kpc = .k9)) := by
+  obtain ⟨out, h, ⟨labs, ls', h1, h2⟩, hk⟩ := qsbr_thread_offline fuel env inp ls hrel hout hreg hint
+  refine ⟨out, h, ⟨labs, ls', h1, absRunQ_qrun _ _ _ _ h1, h2⟩, ?_⟩
+  intro r0
+  obtain ⟨kl, ks', h3, h4⟩ := hk r0
+  exact ⟨kl, ks', h3, absRunK_krun _ _ _ _ h3, h4⟩
+
+theorem _urcu_qsbr_thread_online_refines (fuel : Nat) (env : Env) (inp : List Val) (ls : QState)
+    (hrel : RelQ env ls) (hout : ls.rpc = .out) (hreg : ls.reg = true) (hoff : ls.lctr = 0)
+    (hgp : ∀ v, inp.head? = some v → QShape v) :
+    ∃ out, exec fuel Gen.Src.«_urcu_qsbr_thread_online» env inp = .ok out ∧
+      ∃ labs ls', absRunQ ls out.events = some (labs, ls') ∧ qrun ls labs = some ls' ∧ RelQ out.env ls' ∧
+        (∀ l, l ≠ qRdCtr → l ≠ qWaiting → l ≠ qFutex → out.env.priv l = env.priv l) ∧
+        (Done out.ctl ∨ out.ctl = .blocked) ∧
+        (Done out.ctl → ls'.rpc = .out ∧ ls'.reg = ls.reg ∧
+          (∀ e ∈ out.events, ∀ l n mo, e = .st l (.int n) mo → l = qRdCtr → ls'.lctr = decq n) ∧
+          ((∀ e ∈ out.events, ∀ l v mo, e ≠ .st l v mo) → ls'.lctr = ls.lctr)) := by
+  obtain ⟨out, h, labs, ls', h1, h2⟩ := qsbr_thread_online fuel env inp ls hrel hout hreg hoff hgp
+  exact ⟨out, h, labs, ls', h1, absRunQ_qrun _ _ _ _ h1, h2⟩
+
+theorem _urcu_qsbr_read_ongoing_refines (fuel : Nat) (env : Env) (inp : List Val) (ls : QState) (hrel : RelQ env ls) :
+    exec fuel Gen.Src.«_urcu_qsbr_read_ongoing» env inp =
+      .ok { events := [], env := env, inp := inp, ctl := .ret (some (.int (encq ls.lctr))) } :=
+  qsbr_read_ongoing fuel env inp ls hrel
+
+theorem _urcu_qsbr_read_lock_refines (fuel : Nat) (env : Env) (inp : List Val) :
+    exec fuel Gen.Src.«_urcu_qsbr_read_lock» env inp = .ok { events := [], env := env, inp := inp, ctl := .normal } :=
+  (qsbr_read_lock_unlock fuel env inp).1
+
+theorem _urcu_qsbr_read_unlock_refines (fuel : Nat) (env : Env) (inp : List Val) :
+    exec fuel Gen.Src.«_urcu_qsbr_read_unlock» env inp = .ok { events := [], env := env, inp := inp, ctl := .normal } :=
+  (qsbr_read_lock_unlock fuel env inp).2
+
+theorem urcu_qsbr_wake_up_gp_refines (fuel : Nat) (env : Env) (inp : List Val)
+    (hint : ∀ v, v ∈ inp → ∃ n : Int, v = .int n) :
+    ∃ out, exec fuel Gen.Src.«urcu_qsbr_wake_up_gp» env inp = .ok out ∧ (Done out.ctl ∨ out.ctl = .blocked) ∧
+      ∀ r0, ∃ klabs ks', absRunK { kpc := .k1, r := r0 } out.events = some (klabs, ks') ∧
+        krun { kpc := .k1, r := r0 } klabs = some ks' ∧ (Done out.ctl → ks'.kpc = .k9) := by
+  obtain ⟨out, h, hc, hk⟩ := qsbr_wake_up_gp fuel env inp hint
+  refine ⟨out, h, hc, fun r0 => ?_⟩
+  obtain ⟨kl, ks', h3, h4⟩ := hk r0
+  exact ⟨kl, ks', h3, absRunK_krun _ _ _ _ h3, h4⟩
+
+theorem qsbr_proj_step (c : Qsbr.Cfg) (s s' : Qsbr.State) (i : Nat) (l : QLabel)
+    (st : Qsbr.step c s (l.toL2 i) = some s') (ho : ObsQ s s' i l) :
+    qstep (projQ s i) l = some (projQ s' i) := projQ_step c s s' i l st ho
+theorem qsbr_proj_enabled (c : Qsbr.Cfg) (s : Qsbr.State) (i : Nat) (l : QLabel) (ls' : QState)
+    (hl : qstep (projQ s i) l = some ls') (hi : i < c.n) (hg : GuardQ s i l) :
+    ∃ s', Qsbr.step c s (l.toL2 i) = some s' ∧ projQ s' i = ls' ∧ ObsQ s s' i l := projQ_enabled c s i l ls' hl hi hg
+theorem qsbr_proj_frame (c : Qsbr.Cfg) (s s' : Qsbr.State) (i : Nat) (l : Qsbr.Label)
+    (st : Qsbr.step c s l = some s') (ho : ownerQ l ≠ some i) : projQ s' i = projQ s i := projQ_frame c s s' i l st ho
+theorem qsbr_handshake_proj_step (c : QsbrHs.Cfg) (s s' : QsbrHs.State) (i : Nat) (l : KLabel)
+    (st : QsbrHs.step c s (l.toL2 i) = some s') (ho : ObsK s i l) :
+    kstep (projK s i) l = some (projK s' i) := projK_step c s s' i l st ho
+theorem qsbr_handshake_proj_enabled (c : QsbrHs.Cfg) (s : QsbrHs.State) (i : Nat) (l : KLabel) (ks' : KState)
+    (hl : kstep (projK s i) l = some ks') (hi : i < c.n) (hg : GuardK s i l) :
+    ∃ s', QsbrHs.step c s (l.toL2 i) = some s' ∧ projK s' i = ks' ∧ ObsK s i l := projK_enabled c s i l ks' hl hi hg
+theorem qsbr_handshake_proj_frame (c : QsbrHs.Cfg) (s s' : QsbrHs.State) (i : Nat) (l : QsbrHs.Label)
+    (st : QsbrHs.step c s l = some s') (ho : ownerK l ≠ some i) : projK s' i = projK s i :=
+  projK_frame c s s' i l st ho
+
+/-! ### QSBR non-vacuity -/
+
+def envQ (w : Int) : Env :=
+  { vars := fun _ => none, priv := fun l => if l = qRdCtr then some (.int w) else none }
+def qsOut (g : Nat) : QState := { rpc := .out, reg := true, lctr := g }
+
+/-- `rcu_quiescent_state()`: own word 1 (gp 1), `rcu_gp.ctr` = 3 (gp 2), the updater waits on us and sleeps:
+8 events -/
+example : (exec 0 Gen.Src.«_urcu_qsbr_quiescent_state» (envQ 1) [.int 3, .int 1, .int (-1), .int 1]).toOption.map (·.events) =
+    some [.ld qGpCtr (.int 3) 0, .st qRdCtr (.int 3) 5, .ld qWaiting (.int 1) 0, .st qWaiting (.int 0) 0, .fence .mb,
+          .ld qFutex (.int (-1)) 0, .st qFutex (.int 0) 0, .ext "futex_noasync" qWakeArgs (.int 1), .fence .mb] := by decide
+example : absRunQ (qsOut 1)
+      [.ld qGpCtr (.int 3) 0, .st qRdCtr (.int 3) 5, .ld qWaiting (.int 1) 0, .st qWaiting (.int 0) 0, .fence .mb,
+       .ld qFutex (.int (-1)) 0, .st qFutex (.int 0) 0, .ext "futex_noasync" qWakeArgs (.int 1), .fence .mb] =
+    some ([.qLd 2, .qSt 2, .qFence], qsOut 2) := by decide
+example : absRunK { kpc := .k0, r := 0 }
+      [.ld qGpCtr (.int 3) 0, .st qRdCtr (.int 3) 5, .ld qWaiting (.int 1) 0, .st qWaiting (.int 0) 0, .fence .mb,
+       .ld qFutex (.int (-1)) 0, .st qFutex (.int 0) 0, .ext "futex_noasync" qWakeArgs (.int 1), .fence .mb] =
+    some ([.k0, .k1 true, .k2, .kf, .k3 (-1), .k4Wake, .k5], { kpc := .k9, r := -1 }) := by decide
+/-- nothing to announce: load, `qSkip` -/
+example : (exec 0 Gen.Src.«_urcu_qsbr_quiescent_state» (envQ 3) [.int 3]).toOption.map (fun o => (o.events, o.ctl)) =
+    some ([.ld qGpCtr (.int 3) 0], .ret none) := by decide
+example : absRunQ (qsOut 2) [.ld qGpCtr (.int 3) 0] = some ([.qLd 2, .qSkip], qsOut 2) := by decide
+example :=
+  _urcu_qsbr_quiescent_state_refines 0 (envQ 1) [.int 3, .int 1, .int (-1), .int 1] (qsOut 1) rfl rfl rfl
+    (by intro v h; cases h; exact ⟨2, by decide, rfl⟩)
+    (by intro v h; simp at h; rcases h with rfl | rfl | rfl | rfl <;> exact ⟨_, rfl⟩)
+
+/-- `rcu_thread_offline()` (nobody waits) and `rcu_thread_online()` -/
+example : (exec 0 Gen.Src.«_urcu_qsbr_thread_offline» (envQ 3) [.int 0]).toOption.map (·.events) =
+    some [.st qRdCtr (.int 0) 5, .ld qWaiting (.int 0) 0, .fence .barrier] := by decide
+example : absRunQ (qsOut 2) [.st qRdCtr (.int 0) 5, .ld qWaiting (.int 0) 0, .fence .barrier] =
+    some ([.qOff, .qFence], qsOut 0) := by decide
+example : absRunK { kpc := .k0, r := 0 } [.st qRdCtr (.int 0) 5, .ld qWaiting (.int 0) 0, .fence .barrier] =
+    some ([.k0, .k1 false], { kpc := .k9, r := 0 }) := by decide
+example : (exec 0 Gen.Src.«_urcu_qsbr_thread_online» (envQ 0) [.int 5]).toOption.map (·.events) =
+    some [.fence .barrier, .ld qGpCtr (.int 5) 0, .st qRdCtr (.int 5) 0, .fence .mb] := by decide
+example : absRunQ (qsOut 0) [.fence .barrier, .ld qGpCtr (.int 5) 0, .st qRdCtr (.int 5) 0, .fence .mb] =
+    some ([.qLd 3, .qSt 3, .qFence], qsOut 3) := by decide
+example :=
+  _urcu_qsbr_thread_offline_refines 0 (envQ 3) [.int 0] (qsOut 2) rfl rfl rfl
+    (by intro v h; simp at h; subst h; exact ⟨_, rfl⟩)
+example :=
+  _urcu_qsbr_thread_online_refines 0 (envQ 0) [.int 5] (qsOut 0) rfl rfl rfl rfl
+    (by intro v h; cases h; exact ⟨3, by decide, rfl⟩)
+example : exec 0 Gen.Src.«_urcu_qsbr_read_ongoing» (envQ 3) [] =
+    .ok { events := [], env := envQ 3, inp := [], ctl := .ret (some (.int 3)) } :=
+  _urcu_qsbr_read_ongoing_refines 0 (envQ 3) [] (qsOut 2) rfl
 
 end UrcuVerif.Props.SrcRead
